@@ -515,6 +515,9 @@ func genMatcherStep(t *rapid.T, kind string, cur JNode, comps []pathComp) matche
 	case k < 4 && typeMatcherName(node) != "" && !(kind == "yaml" && node.K == "num"):
 		ms.Kind = "type"
 		ms.TypeName = typeMatcherName(node)
+		if kind != "yaml" && rapid.IntRange(0, 2).Draw(t, "typeany") == 0 {
+			ms.TypeName = "any" // accepts every value; the placeholder records the type found at that moment
+		}
 	default:
 		ms.Kind = "custom"
 		ret := rapid.SampledFrom(placeholderPool).Draw(t, "ret")
@@ -524,7 +527,7 @@ func genMatcherStep(t *rapid.T, kind string, cur JNode, comps []pathComp) matche
 		ms.Return = json.RawMessage(ret)
 	}
 	st := matcherStep{Spec: ms, Comps: comps}
-	if ms.Kind == "any" && rapid.IntRange(0, 2).Draw(t, "multipath") == 0 {
+	if (ms.Kind == "any" || (ms.Kind == "type" && ms.TypeName == "any")) && rapid.IntRange(0, 2).Draw(t, "multipath") == 0 {
 		missing := "no.such.path"
 		if kind == "yaml" {
 			missing = "$.nosuch.path"
@@ -535,7 +538,16 @@ func genMatcherStep(t *rapid.T, kind string, cur JNode, comps []pathComp) matche
 			paths = []string{missing, path}
 		}
 		for i := rapid.IntRange(0, 2).Draw(t, "nmore"); i > 0; i-- {
-			if more, ok := genExistingPath(t, cur, false); ok {
+			more, ok := genExistingPath(t, cur, false)
+			switch rapid.IntRange(0, 3).Draw(t, "morerel") {
+			case 0: // the same path again
+				more, ok = comps, true
+			case 1: // a descendant of the first path
+				if sub, ok2 := genExistingPath(t, node, false); ok2 {
+					more, ok = append(append([]pathComp{}, comps...), sub...), true
+				}
+			}
+			if ok {
 				if _, still := cur.at(more); still {
 					st.More = append(st.More, more)
 					if kind == "yaml" {
@@ -841,7 +853,8 @@ func TestC15_MatchersTargeted(t *testing.T) {
 // ---- C16 ---------------------------------------------------------------------------------------------------
 
 type c16Case struct {
-	Kind    string        `json:"kind"` // json | sjson | yaml
+	Merged  bool          `json:"merged_any"` // all masked paths go into ONE Any matcher with ErrOnMissingPath(false)
+	Kind    string        `json:"kind"`       // json | sjson | yaml
 	D       JNode         `json:"d"`
 	DPrime  JNode         `json:"d_masked_changed"`
 	DDouble JNode         `json:"d_unmasked_changed"`
@@ -968,6 +981,12 @@ func genC16(t *rapid.T) c16Case {
 		masked = append(masked, comps)
 		c.Steps = append(c.Steps, matcherStep{Spec: ms, Comps: comps})
 	}
+	if len(c.Steps) >= 2 && rapid.IntRange(0, 2).Draw(t, "merged") == 0 {
+		c.Merged = true
+		for i := range c.Steps {
+			c.Steps[i].Spec = MatcherSpec{Kind: "any", Paths: c.Steps[i].Spec.Paths}
+		}
+	}
 	c.DPrime = c.D
 	for _, st := range c.Steps {
 		node, _ := c.DPrime.at(st.Comps)
@@ -1009,6 +1028,13 @@ func (c c16Case) text(n JNode) string {
 }
 
 func (c c16Case) specs() []MatcherSpec {
+	if c.Merged {
+		m := MatcherSpec{Kind: "any", ErrMissing: boolp(false)}
+		for _, st := range c.Steps {
+			m.Paths = append(m.Paths, st.Spec.Paths[0])
+		}
+		return []MatcherSpec{m}
+	}
 	var out []MatcherSpec
 	for _, st := range c.Steps {
 		out = append(out, st.Spec)
@@ -1101,6 +1127,47 @@ func checkC16(c c16Case) error {
 	if out, r, err := replay(root2, c.D); err != nil || out != oPassed {
 		return fmt.Errorf("D against the snapshot of D': outcome %q err %v errors=%q", out, err, clipAll(r.Errors))
 	}
+	// matcher VALUES reused across calls (as a test helper holding `var masks = match.Any(...)` does): a warm-up document
+	// that lacks the first masked member, then D – D must store exactly what it stores through fresh matcher values
+	{
+		rt := &matcherRT{}
+		var built []bothMatcher
+		for _, m := range c.specs() {
+			built = append(built, rt.build(m))
+		}
+		warm := c.D
+		if first := c.Steps[0].Comps; len(first) == 1 && !first[0].IsIdx && c.D.K == "obj" {
+			warm = JNode{K: "obj"}
+			for i, k := range c.D.Keys {
+				if k != first[0].Key {
+					warm.Keys = append(warm.Keys, k)
+					warm.Kids = append(warm.Kids, c.D.Kids[i])
+				}
+			}
+		}
+		root3 := scratchDir()
+		defer os.RemoveAll(root3)
+		newProcess(Mode{})
+		ft := newFakeT(c.Test + "Warm")
+		Call{API: c.Kind, Doc: BS(c.text(warm)), Form: form(warm), prebuilt: built}.invoke(spec.build(root3), ft)
+		ft.finish()
+		os.RemoveAll(filepath.Join(root3, "snaps"))
+		ft = newFakeT(c.Test)
+		r3 := Call{API: c.Kind, Doc: BS(c.text(c.D)), Form: form(c.D), prebuilt: built}.invoke(spec.build(root3), ft)
+		ft.finish()
+		if out3, _ := outcomeOf(r3); out3 != oAdded {
+			return fmt.Errorf("D through reused matcher values: outcome %q errors=%q", out3, clipAll(r3.Errors))
+		}
+		var all []string
+		for p, f := range snapDir(root3) {
+			if !f.IsDir {
+				all = append(all, p+"\x00"+f.Data)
+			}
+		}
+		if len(all) != 1 || all[0] != s1 {
+			return fmt.Errorf("the same matcher values used for an earlier document change what D stores:\n fresh  %q\n reused %q", clip(s1), clip(strings.Join(all, "|")))
+		}
+	}
 	if c.HasDD {
 		out, r, err := replay(root1, c.DDouble)
 		if err != nil {
@@ -1145,6 +1212,8 @@ type c17Matcher struct {
 }
 
 type c17Case struct {
+	Suffix   string       `json:"yaml_suffix,omitempty"` // yaml: appended to the document ("---\n": a trailing empty document)
+	Empty    *string      `json:"yaml_empty_doc,omitempty"` // yaml: the whole document is this (empty) text; every matcher path is missing
 	Kind     string       `json:"kind"` // json | sjson | yaml
 	Tree     JNode        `json:"tree"`
 	Matchers []c17Matcher `json:"matchers"`
@@ -1194,6 +1263,14 @@ func genC17(t *rapid.T) c17Case {
 		}
 		return fmt.Sprintf("nosuch%d.path", i)
 	}
+	if yamlDoc {
+		c.Suffix = rapid.SampledFrom([]string{"", "", "", "---\n", "...\n", "\n"}).Draw(t, "yamlsuffix")
+		if rapid.IntRange(0, 7).Draw(t, "emptydoc") == 0 {
+			e := rapid.SampledFrom([]string{"", "\n", "---\n", "# nothing but a comment\n"}).Draw(t, "emptytext")
+			c.Empty = &e
+			c.Tree = JNode{K: "obj"}
+		}
+	}
 	var used [][]pathComp
 	n := rapid.IntRange(1, 5).Draw(t, "nmatchers")
 	for i := 0; i < n; i++ {
@@ -1219,7 +1296,29 @@ func genC17(t *rapid.T) c17Case {
 		switch {
 		case kind < 2 || !ok: // missing path
 			which := rapid.SampledFrom([]string{"any", "type", "custom"}).Draw(t, "mwhich")
-			m.Spec = MatcherSpec{Kind: which, Paths: []string{missing(i)}, TypeName: "string", Return: json.RawMessage(`"r"`)}
+			mp := missing(i)
+			if ok {
+				// other ways for a path not to exist: below a scalar, beyond the end of an array, an unknown member of a nested object
+				switch rapid.IntRange(0, 3).Draw(t, "misskind") {
+				case 0:
+					if node.K != "obj" && node.K != "arr" {
+						mp = path + ".below_a_scalar"
+					}
+				case 1:
+					if node.K == "arr" {
+						if yamlDoc {
+							mp = path + "[99]"
+						} else {
+							mp = path + ".99"
+						}
+					}
+				case 2:
+					if node.K == "obj" {
+						mp = path + ".no_such_member"
+					}
+				}
+			}
+			m.Spec = MatcherSpec{Kind: which, Paths: []string{mp}, TypeName: "string", Return: json.RawMessage(`"r"`)}
 			m.Failing = true
 			if rapid.Bool().Draw(t, "tolerant") {
 				m.Spec.ErrMissing = boolp(false)
@@ -1227,8 +1326,11 @@ func genC17(t *rapid.T) c17Case {
 			} else if rapid.Bool().Draw(t, "explicit") {
 				m.Spec.ErrMissing = boolp(true)
 			}
-		case kind < 4 && node.K != "null" && !(yamlDoc && node.K == "num"): // wrong type
+		case kind < 4 && !(yamlDoc && (node.K == "num" || node.K == "null")): // wrong type (an existing null is not a string either)
 			m.Spec = MatcherSpec{Kind: "type", Paths: []string{path}, TypeName: wrongType(node, yamlDoc)}
+			if rapid.Bool().Draw(t, "tolerantflag") {
+				m.Spec.ErrMissing = boolp(false) // irrelevant: the path exists
+			}
 			m.Failing = true
 			m.Comps = comps
 			used = append(used, comps)
@@ -1266,7 +1368,10 @@ func checkC17(c c17Case) error {
 	if c.Kind == "sjson" {
 		spec.Filename = ""
 	}
-	doc := renderYAML(c.Tree)
+	doc := renderYAML(c.Tree) + c.Suffix
+	if c.Empty != nil {
+		doc = *c.Empty
+	}
 	if c.Kind != "yaml" {
 		doc = c.Tree.Compact()
 	}
